@@ -171,7 +171,7 @@ def render_case(case, uid, macroset=None):
     elif head == "instringopen":
         # string literals on one line: one with an odd number of escaped quotes, one that ends with `name!(`, and a
         # further one (what a skipped-string rule that forgets about escapes would mis-pair)
-        body = '    let _a%d = "3.5\\" floppy"; let _b%d = "%s::%s!("; let _c%d = "tail %d";' % (uid, uid, mod, macro, uid, uid)
+        body = '    let _a%d = "3.5\\" floppy"; let _b%d = "%s::%s!("; let _c%d = ", tail %d)";' % (uid, uid, mod, macro, uid, uid)
         stmt_off = None
     elif head == "rawstring":
         inner = call.replace("\n", " ").replace("\r", " ")
